@@ -212,7 +212,7 @@ def configs(tier):
             out.append(dict(case='regress', method=method, n_cond=3, n_basis=2, n_rdm=2, sigma='cvector'))
             out.append(dict(case='regress', method=method, n_cond=4, n_basis=2, n_rdm=1, sigma='cvector'))
     for method in ['cosine', 'corr']:
-        out.append(dict(case='select', method=method, n_cond=3, n_basis=2, n_rdm=2))
+        out.append(dict(case='select', method=method, n_cond=3, n_basis=2, n_rdm=2 if method == 'cosine' else 1))
         out.append(dict(case='select', method=method, n_cond=3, n_basis=3, n_rdm=1))
         if not quick:
             out.append(dict(case='select', method=method, n_cond=4, n_basis=2, n_rdm=1))
